@@ -148,6 +148,15 @@ chk('C08',
     'Trusted: the Python reading of the lexical grammar and of the reference syntax.',
     'sanitizer build + reference-model monitors (lexical-grammar model, reference scanner) and before/after rename monitor over histories', 'DESIGN.md 4 C08')
 
+chk('C12',
+    'Runtime monitoring of BinarySynthes, MergeWith, Equate, IsEquatable and DeleteDuplicates on pairs of schemas grown from '
+    'a common shape: result invariants (C09 monitor), translations total and onto existing constituents, equated pairs '
+    'identified, every result constituent is the image of a pre-image under the alias map induced by the translations '
+    '(reference lexical model / reference translation), correctness and typifications preserved for correct operands and '
+    'like-with-like tables, verdict == result, refusal and operands leave no trace.',
+    'Trusted: the Python reading of the lexical grammar and reference syntax; which tables must be accepted is taken from the code.',
+    'sanitizer build + translation-consistency monitor (image of every constituent under the returned maps) over synthesis / merge / equate results', 'DESIGN.md 4 C12')
+
 chk('C13',
     'Runtime monitoring of OpExtractBasis / OpMaxPart on schemas reached by editing histories (forward references, moved '
     'constituents, incorrect members) against a Python reference model (closure / fixpoint over the reported edges, '
